@@ -198,9 +198,9 @@ class TokenScanner:
         - 如果匹配成功，则将指针移动到 tokens 后的下一个元素
         - 如果匹配失败，则抛出异常
         """
-        for token in tokens:
-            if not self.pop().equals(token):
-                raise SqlParseError(f"尝试解析 {token} 失败，计划解析短语为 {tokens}：{self}")
+        if not self.search(*tokens):
+            raise SqlParseError(f"尝试解析 {tokens} 失败：{self}")
+        self.move(len(tokens))
 
     def get_as_source_or_null(self) -> Optional[str]:
         """不移动指针，并返回当前元素的 source"""
